@@ -415,6 +415,12 @@ class Executor:
             return FnItem(t[7:])
         if t.startswith("ZeroSized: "):
             return FnItem(t[len("ZeroSized: "):])
+        mm = re.fullmatch(r"(?:core::)?num::<impl ([iu](?:8|16|32|64|128|size))>::(MAX|MIN)", t)
+        if mm:
+            w, sg = INT_TYPES[mm.group(1)]
+            if mm.group(2) == "MAX":
+                return BV(w, sg, (1 << (w - 1)) - 1 if sg else (1 << w) - 1)
+            return BV(w, sg, (1 << (w - 1)) if sg else 0)
         if "::promoted[" in t:
             m = re.fullmatch(r"(.*)::promoted\[(\d+)\]", t)
             base = re.escape(strip_generics(m.group(1)))
